@@ -113,7 +113,7 @@ def gen(stratum, rng, tier):
     else:
         raise ValueError(stratum)
     return {"c": c, "A": A, "b": b, "kw": kw, "ipm_kw": ipm_kw, "both_senses": rng.random() < 0.6,
-            "minimize": rng.random() < 0.5}
+            "minimize": rng.random() < 0.5, "container": rng.choice(["list", "list", "tuple", "mixed"])}
 
 
 SUITE_FILES = ["tests/solvors/test_simplex.py", "tests/solvors/test_interior_point.py", "tests/solvors/test_milp.py"]
@@ -159,6 +159,12 @@ def run(case, obs):
         return run_suite(case, obs)
 
     c, A, b = case["c"], case["A"], case["b"]
+    kind = case.get("container", "list")
+    if kind == "tuple":  # Sequence[...] arguments: tuples are as valid as lists
+        c, A, b = tuple(c), tuple(tuple(r) for r in A), tuple(b)
+    elif kind == "mixed":
+        A = [tuple(r) if i % 2 else list(r) for i, r in enumerate(A)]
+        b = tuple(b)
     senses = [case["minimize"]] + ([not case["minimize"]] if case["both_senses"] else [])
     nontrivial = any(v < 0 for v in b)
     for mn in senses:
